@@ -374,26 +374,34 @@ def getHolder (sys : Sys) (x : Id) (v : Var) : HM (Id × HolderObj) := do
     pure (hid, ho)
   | none => createHolder sys x.reg pid v
 
+/-- the on-disk half of `Holder.get_array` -/
+def diskLookup (disk : Option Id) (p : Period) : HM (Option Vec) :=
+  match disk with
+  | some did => do
+    let d ← rdDisk did
+    diskFind d p
+  | none => pure none
+
 /-- `Holder.get_array` -/
 def holderFind (ho : HolderObj) (p : Period) : HM (Option Vec) := do
   let st ← rdStore ho.mem
   match st.find p with
   | some v => pure (some v)
-  | none =>
-    match ho.disk with
-    | some did => do
-      let d ← rdDisk did
-      diskFind d p
-    | none => pure none
+  | none => diskLookup ho.disk p
+
+/-- the on-disk half of `Holder.get_known_periods` -/
+def diskPeriods (disk : Option Id) : HM (List Period) :=
+  match disk with
+  | some did => do
+    let d ← rdDisk did
+    pure d.files
+  | none => pure []
 
 /-- `Holder.get_known_periods` -/
 def knownPeriods (ho : HolderObj) : HM (List Period) := do
   let st ← rdStore ho.mem
-  match ho.disk with
-  | some did => do
-    let d ← rdDisk did
-    pure (st.arrays.map (fun x => x.1) ++ d.files)
-  | none => pure (st.arrays.map (fun x => x.1))
+  let ds ← diskPeriods ho.disk
+  pure (st.arrays.map (fun x => x.1) ++ ds)
 
 /-- the known periods with the value `get_array` returns for each -/
 def holderKnown (ho : HolderObj) : HM (List (Period × Option Vec)) := do
@@ -724,8 +732,8 @@ def readValue (sys : Sys) (x : Id) (v : Var) (p : Period) : HM (Option Vec) := d
     holderFind ho p
   | none => pure none
 
-/-- known periods (with values) of a variable, without creating the holder -/
-def readKnown (sys : Sys) (x : Id) (v : Var) : HM (List (Period × Option Vec)) := do
+/-- `simulation.get_known_periods(v)` without creating the holder -/
+def readKnown (sys : Sys) (x : Id) (v : Var) : HM (List Period) := do
   let decl ← varDecl sys v
   let so ← rdSim x
   let pid ← ofOption .value (alGet so.pops decl.entity)
@@ -733,7 +741,7 @@ def readKnown (sys : Sys) (x : Id) (v : Var) : HM (List (Period × Option Vec)) 
   match alGet po.holders v with
   | some hid => do
     let ho ← rdHolder hid
-    holderKnown ho
+    knownPeriods ho
   | none => pure []
 
 /-- entity structure of one population: count, ids, memberships, which variables have a holder -/
@@ -860,5 +868,41 @@ def runOps (sys : Sys) (fuel : Nat) (s c : Id) : List (Side × Op) → Heap → 
   | (sd, op) :: rest, h => runOps sys fuel s c rest (step sys fuel (sideId s c sd) op h).2
 
 def onSide (sd : Side) (e : Side × Op) : Option Op := if e.1 = sd then some e.2 else none
+
+/-- what the calls of one simulation, run alone, return -/
+def resultsSide (sys : Sys) (fuel : Nat) (x : Id) : List Op → Heap → List (Except Err Out)
+  | [], _ => []
+  | op :: rest, h => (step sys fuel x op h).1 :: resultsSide sys fuel x rest (step sys fuel x op h).2
+
+/-- what the calls made on side `sd` return in an interleaved history -/
+def resultsOps (sys : Sys) (fuel : Nat) (s c : Id) (sd : Side) : List (Side × Op) → Heap → List (Except Err Out)
+  | [], _ => []
+  | (sd', op) :: rest, h =>
+    if sd' = sd then
+      (step sys fuel (sideId s c sd') op h).1 :: resultsOps sys fuel s c sd rest (step sys fuel (sideId s c sd') op h).2
+    else resultsOps sys fuel s c sd rest (step sys fuel (sideId s c sd') op h).2
+
+/-! ## footprints -/
+
+/-- the references an object holds -/
+def Obj.refs : Obj → List Id
+  | .sim o => o.persons :: o.tracer :: o.inval :: (o.pops.map (fun e => e.2) ++ o.dir.toList)
+  | .pop o => o.sim :: (o.holders.map (fun e => e.2) ++ o.members.toList)
+  | .holder o => o.pop :: o.sim :: o.mem :: o.disk.toList
+  | .store _ => []
+  | .disk o => [o.dir]
+  | .dir _ => []
+  | .tracer _ => []
+  | .inval _ => []
+
+def refsOf (h : Heap) (p : Id) : List Id :=
+  match h.get? p with
+  | some o => o.refs
+  | none => []
+
+/-- the ids reachable from `roots` by following at most `n` references -/
+def reach (h : Heap) : Nat → List Id → List Id
+  | 0, roots => roots
+  | n + 1, roots => roots ++ reach h n (roots.flatMap (refsOf h))
 
 end OFCore.Heap
